@@ -1190,9 +1190,12 @@ func buildTasks(o *hx.Opts) []task {
 					// offset of the end of block b
 					p, off := in.plain, 0
 					for k := 0; k <= b && len(p) >= 8; k++ {
-						u := int(binary.BigEndian.Uint64(p))
-						off += 8 + u
-						p = p[8+u:]
+						u := binary.BigEndian.Uint64(p)
+						if u > uint64(len(p)-8) {
+							break
+						}
+						off += 8 + int(u)
+						p = p[8+int(u):]
 					}
 					if off+dlt < 0 {
 						return 0
